@@ -11,6 +11,7 @@
 (*              (handled at once: retry or final error)                    *)
 (*   Poll       poll: decoded results -> answer / retry; head round        *)
 (*              complete -> best-head rule, every waiting caller answered  *)
+(*   Tick       the clock advances (> 1 s) during a head round, then poll   *)
 (*   Stop       on_stop                                                    *)
 (*   PeerConn / PeerDisc / PeerArch   peer tracker changes (a peer may be   *)
 (*              marked archival while not connected; disconnecting clears  *)
@@ -132,7 +133,7 @@ Respond(r, o, k) ==
     /\ IF r.c # 0
        THEN /\ o \in GetOutcomes /\ k = 0
        ELSE /\ o \in HeadOutcomes /\ (IF o = "hdr" THEN k \in Hdrs ELSE k = 0)
-    /\ IF o # "fail"
+    /\ IF o \notin FailKinds
        THEN /\ decoded' = decoded \cup {[id |-> r.id, o |-> o, k |-> k]}
             /\ UNCHANGED <<inflight, pending, answered, roundRes>>
             /\ Step(Act("respond", r.c, (IF r.c = 0 THEN r.id[3] ELSE 0), o, k, (IF r.c = 0 THEN 0 ELSE r.id[3])),
@@ -143,22 +144,22 @@ Respond(r, o, k) ==
             /\ IF r.c = 0
                THEN /\ roundRes' = roundRes \cup {<<r.id, 0>>}
                     /\ UNCHANGED <<pending, answered>>
-                    /\ Step(Act("respond", 0, r.id[3], o, 0, 0), <<EOut(r.id, "fail", 0)>>)
+                    /\ Step(Act("respond", 0, r.id[3], o, 0, 0), <<EOut(r.id, o, 0)>>)
                ELSE /\ UNCHANGED roundRes
                     /\ IF r.tries > 0 /\ r.c \notin cancelled
                        THEN /\ pending' = pending \cup {[c |-> r.c, kind |-> NextKind(r), tries |-> r.tries]}
                             /\ UNCHANGED answered
-                            /\ Step(Act("respond", r.c, 0, o, 0, r.id[3]), <<EOut(r.id, "fail", 0)>>)
+                            /\ Step(Act("respond", r.c, 0, o, 0, r.id[3]), <<EOut(r.id, o, 0)>>)
                        ELSE /\ UNCHANGED pending
                             /\ IF r.c \in cancelled
-                               THEN UNCHANGED answered /\ Step(Act("respond", r.c, 0, o, 0, r.id[3]), <<EOut(r.id, "fail", 0)>>)
+                               THEN UNCHANGED answered /\ Step(Act("respond", r.c, 0, o, 0, r.id[3]), <<EOut(r.id, o, 0)>>)
                                ELSE /\ answered' = answered \cup {r.c}
                                     /\ Step(Act("respond", r.c, 0, o, 0, r.id[3]),
-                                            <<EOut(r.id, "fail", 0), EAns(r.c, "err", "failure", 0)>>)
+                                            <<EOut(r.id, o, 0), EAns(r.c, "err", "failure", 0)>>)
     /\ UNCHANGED <<conn, trusted, arch, stopped, asked, cancelled, headq, headSched, round, roundIds, pe, done>>
 
 \* poll: every decoded result is handled; a complete head round is resolved
-Poll ==
+PollStep(name, needWork) ==
     /\ ~done
     /\ LET D      == {d \in decoded : \E r \in inflight : r.id = d.id}
            RecOf(d) == CHOOSE r \in inflight : r.id = d.id
@@ -171,7 +172,7 @@ Poll ==
            complete == headSched /\ \A id \in roundIds : \E x \in rres : x[1] = id
            reports  == {[id |-> x[1], k |-> x[2]] : x \in {y \in rres : y[2] # 0}}
        IN
-       /\ (decoded # {} \/ complete)
+       /\ (needWork => (decoded # {} \/ complete))
        /\ decoded' = {}
        /\ inflight' = {r \in inflight : ~\E d \in D : d.id = r.id}
        /\ pending' = pending \cup {[c |-> RecOf(d).c, kind |-> NextKind(RecOf(d)), tries |-> RecOf(d).tries] : d \in retry}
@@ -180,7 +181,7 @@ Poll ==
           THEN \E best \in Best(reports) :
                  /\ headSched' = FALSE /\ headq' = {}
                  /\ answered' = answered \cup {RecOf(d).c : d \in ansGet} \cup (headq \ cancelled)
-                 /\ Step(Act("poll", 0, 0, "", 0, 0),
+                 /\ Step(Act(name, 0, 0, "", 0, 0),
                          <<E0("poll")>>
                          \o SeqOf({EAns(RecOf(d).c, IF d.o = "valid" THEN "ok" ELSE "err",
                                         IF d.o = "valid" THEN "" ELSE ErrKind(d.o),
@@ -189,12 +190,17 @@ Poll ==
           ELSE /\ headSched' = (headSched /\ ~complete)
                /\ UNCHANGED headq
                /\ answered' = answered \cup {RecOf(d).c : d \in ansGet}
-               /\ Step(Act("poll", 0, 0, "", 0, 0),
+               /\ Step(Act(name, 0, 0, "", 0, 0),
                        <<E0("poll")>>
                        \o SeqOf({EAns(RecOf(d).c, IF d.o = "valid" THEN "ok" ELSE "err",
                                       IF d.o = "valid" THEN "" ELSE ErrKind(d.o),
                                       IF d.o = "valid" THEN d.id ELSE NoId) : d \in ansGet}))
     /\ UNCHANGED <<conn, trusted, arch, stopped, asked, cancelled, round, roundIds, pe, done>>
+
+Poll == PollStep("poll", TRUE)
+\* The (virtual) clock advances by more than a second while a head round is in progress, then the
+\* handler is polled.  Time is not part of the statements: the step is a poll, nothing else.
+Tick == headSched /\ PollStep("tick", FALSE)
 
 Stop ==
     /\ ~done /\ ~stopped
@@ -239,7 +245,7 @@ Quiesce ==
 
 Next ==
     \/ \E c \in Callers : Request(c) \/ Cancel(c)
-    \/ Sched \/ Poll \/ Stop \/ Quiesce
+    \/ Sched \/ Poll \/ Tick \/ Stop \/ Quiesce
     \/ \E r \in inflight : \E o \in GetOutcomes \cup HeadOutcomes :
            \E k \in Hdrs \cup {0} : Respond(r, o, k)
     \/ \E p \in Peers : PeerConn(p) \/ PeerDisc(p) \/ PeerArch(p)
